@@ -44,7 +44,9 @@ partial def parseProg : List Char → Option (Prog × List Char)
   | 'Y' :: cs => some (.yield, cs)
   | 'E' :: cs => (parseNat cs).map fun (n, r) => (.err n, r)
   | 'B' :: '(' :: cs => (parseSeq cs []).map fun (ps, r) => (.block (seqOf ps), r)
-  | 'P' :: '(' :: cs => (parseSeq cs []).map fun (ps, r) => (.pcall (seqOf ps), r)
+  | 'P' :: cs => match skipShape cs with
+    | '(' :: r0 => (parseSeq r0 []).map fun (ps, r) => (.pcall (seqOf ps), r)
+    | _ => none
   | 'C' :: '(' :: cs => (parseSeq cs []).map fun (ps, r) => (.call (seqOf ps), r)
   | 'V' :: '(' :: cs => (parseSeq cs []).map fun (ps, r) => (.retCall (seqOf ps), r)
   | 'F' :: cs => match parseNat cs with
